@@ -748,6 +748,52 @@ pub fn check_capture_spans(expr: &str, glob: &Glob, what: &str, ctx: &Ctx, rpt: 
     }
 }
 
+/// Partitioning is a step that can be taken again (round 7, C17-H: an offset remembered by the
+/// first partition and reset by the second): the postfix is partitioned a second and a third time,
+/// as it is and through the owning conversion, and after every step the spans must index the text
+/// that the glob then displays.
+fn check_spans_after_further_partitions(post: &Glob, route: &str, ctx: &Ctx, rpt: &mut Report, flags_before_tree: bool) {
+    for owned_between in [false, true] {
+        let mut cur: Glob<'static> = match guarded(|| post.clone().into_owned()) {
+            Some(g) => g,
+            None => return,
+        };
+        if !owned_between {
+            // Borrowed all the way: partition the borrowed postfix itself first.
+            match guarded(|| post.clone().partition()) {
+                Some((_, Some(g))) => {
+                    let text = g.to_string();
+                    check_capture_spans(&text, &g, &format!("{}:partitioned-again", route), ctx, rpt, flags_before_tree);
+                    rpt.bucket("postfix-partitioned-again");
+                    cur = match guarded(|| g.into_owned()) {
+                        Some(g) => g,
+                        None => return,
+                    };
+                },
+                _ => continue,
+            }
+        }
+        for step in 0..2 {
+            match guarded(|| cur.clone().partition()) {
+                Some((_, Some(g))) => {
+                    let text = g.to_string();
+                    check_capture_spans(
+                        &text,
+                        &g,
+                        &format!("{}:{}partitioned-again(x{})", route, if owned_between { "owned-and-" } else { "" }, step + 2),
+                        ctx,
+                        rpt,
+                        flags_before_tree,
+                    );
+                    rpt.bucket("postfix-partitioned-again");
+                    cur = g;
+                },
+                _ => break,
+            }
+        }
+    }
+}
+
 fn c17(expr: &str, ctx: &Ctx, rpt: &mut Report) {
     match case::build(expr) {
         BuildOutcome::Panicked(_) => rpt.bucket("panics-outside-C05"),
@@ -800,6 +846,7 @@ fn c17(expr: &str, ctx: &Ctx, rpt: &mut Report) {
                     a.seq.toks.iter().any(|t| matches!(t.node, Node::Tree { lead: true, .. }) && t.span.0 != t.core.0)
                 });
                 check_capture_spans(&post_expr, &post, "postfix", ctx, rpt, flags_before_tree);
+                check_spans_after_further_partitions(&post, "postfix", ctx, rpt, flags_before_tree);
                 if guarded(|| post.captures().count()).unwrap_or(0) > 0 {
                     rpt.nontrivial.insert(hash_str(expr));
                 }
@@ -820,6 +867,7 @@ fn c17(expr: &str, ctx: &Ctx, rpt: &mut Report) {
                             a.seq.toks.iter().any(|t| matches!(t.node, Node::Tree { lead: true, .. }) && t.span.0 != t.core.0)
                         });
                         check_capture_spans(&post_expr, &post, route, ctx, rpt, flags_before_tree);
+                        check_spans_after_further_partitions(&post, route, ctx, rpt, flags_before_tree);
                         if !prefix.as_os_str().is_empty() {
                             rpt.bucket("owned-glob-partitioned-with-nonempty-prefix");
                             if !prefix.to_string_lossy().is_ascii() {
